@@ -114,6 +114,13 @@ func (fc *fnCtx) staticCall(cs *callSite, callee *ssa.Function, bindings []*val)
 		return fc.pureCall(callee, cs.args, fc.curH, fc.curR)
 	}
 	if g.lite {
+		if ev := fc.eventKeyOfCall(cs, callee.Name()); ev != "" {
+			if callee.Blocks == nil || !touchesLocks(callee, 6, map[*ssa.Function]bool{}) || fc.topHasOrderEvent(ev) {
+				res := fc.havocCall(cs, false)
+				fc.event(ev, res, cs.pos)
+				return res
+			}
+		}
 		// typestate level: contracts speak about values and heap contents, which do not exist here; only lock
 		// operations matter: inline callees that can reach one, everything else is a havoc of its results
 		if callee.Blocks != nil && fc.depth < g.maxDepth+2 && !fc.inChain(callee) && g.instrs < maxInstrs &&
@@ -849,6 +856,11 @@ func (fc *fnCtx) invoke(cs *callSite) *val {
 	g := fc.g
 	recv := cs.fnv
 	m := cs.common.Method
+	if g.lite {
+		res := fc.havocCall(cs, false)
+		fc.event(fc.addrText(cs.common.Value)+"."+m.Name(), res, cs.pos)
+		return res
+	}
 	trustedIface := false
 	if n, ok := cs.common.Value.Type().(*types.Named); ok && n.Obj().Pkg() != nil {
 		p := n.Obj().Pkg().Path()
@@ -1376,4 +1388,81 @@ func valKey(v *val) string {
 		return "{" + strings.Join(ps, ",") + "}"
 	}
 	return strings.Join(v.t, ",")
+}
+
+// ---------------------------------------------------------------------------------------
+// typestate events (lite units): `order L: A before B` means every execution of event B is preceded by an execution
+// of event A that returned without error. Flags live in the ghost array GL at a reserved object.
+
+const evRef = "(- 777)"
+
+func evIndex(ev string) string {
+	h := uint64(1469598103934665603)
+	for i := 0; i < len(ev); i++ {
+		h ^= uint64(ev[i])
+		h *= 1099511628211
+	}
+	return bv(64, h|1)
+}
+
+func (fc *fnCtx) eventKeyOfCall(cs *callSite, method string) string {
+	if len(cs.common.Args) == 0 || cs.common.Signature().Recv() == nil {
+		return ""
+	}
+	return fc.addrText(cs.common.Args[0]) + "." + method
+}
+
+func (fc *fnCtx) topOrders() []orderRule {
+	top := fc.topCtx()
+	if c := fc.g.w.contractOf(top.fn); c != nil {
+		return c.orders
+	}
+	return nil
+}
+
+func (fc *fnCtx) topHasOrderEvent(ev string) bool {
+	for _, o := range fc.topOrders() {
+		if o.before == ev || o.after == ev {
+			return true
+		}
+	}
+	return false
+}
+
+// event records the execution of ev (res = results of the call, nil for stores) and checks the order rules.
+func (fc *fnCtx) event(ev string, res *val, pos token.Pos) {
+	g := fc.g
+	if !g.lite || fc.parent != nil {
+		return // rules speak about the events of the function under contract itself
+	}
+	for _, o := range fc.topOrders() {
+		if o.after == ev {
+			g.oblige(obligation{name: fmt.Sprintf("order:%s:%s", fnKeyQ(fc.fn), o.label), kind: "order", guard: fc.curR,
+				cond: fmt.Sprintf("(= %s 1)", sel(fc.curH["GL"], evRef, evIndex(o.before))), pos: g.w.posString(pos)})
+		}
+	}
+	for _, o := range fc.topOrders() {
+		if o.before == ev {
+			okc := "true"
+			if res != nil {
+				// the last result of type error must be nil
+				var find func(v *val) string
+				find = func(v *val) string {
+					if v.k == kIface && v.ty != nil && isErrorType(v.ty) {
+						return fmt.Sprintf("(= %s 0)", v.t[0])
+					}
+					if v.k == kTuple && len(v.elems) > 0 {
+						return find(v.elems[len(v.elems)-1])
+					}
+					return ""
+				}
+				if c := find(res); c != "" {
+					okc = c
+				}
+			}
+			cur := sel(fc.curH["GL"], evRef, evIndex(ev))
+			fc.curH["GL"] = g.bind("GL", heapSort("Int"), sto(fc.curH["GL"], evRef, evIndex(ev), fmt.Sprintf("(ite %s 1 %s)", okc, cur)))
+			break
+		}
+	}
 }
